@@ -63,6 +63,8 @@ func TimeFromProto(proto *dtpb.Time) Time {
 	var l layout
 	switch proto.Precision {
 	case dtpb.Time_MICROSECOND:
+		// the highest precision of a System Time is the millisecond: nothing finer may stay behind in the value
+		t = t.Truncate(time.Millisecond)
 		fallthrough
 	case dtpb.Time_MILLISECOND:
 		l = millisecondLayout
